@@ -291,6 +291,12 @@ class Renderer:
             if ok and S.ref_resolve_plain(val) == tag:
                 return val
             return '%s %s' % (tag_text(tag), _esc(val))
+        if self.style in ('block', 'flow') and val and all(
+                c.isalnum() or c in '._+-' for c in val) and \
+                val[0].isalnum() and val[-1].isalnum():
+            # a foreign tag on a *plain* scalar (the other styles quote it):
+            # same tag tree, different style
+            return '%s %s' % (tag_text(tag), val)
         return '%s %s' % (tag_text(tag), _esc(val))
 
     def coll_tag(self, spec):
